@@ -72,7 +72,8 @@ def compare(cfg, ops):
         # one server may be ahead in *delivering* (simultaneous timers are served in a different order): what the other has not
         # delivered yet must still be in its queue, and what both delivered must agree, transport included
         short, long_, lag = (x[1], y[1], 'threaded') if len(x[1]) < len(y[1]) else (y[1], x[1], 'asyncio')
-        fl = pair[lag].post[-1].get(s) if pair[lag].post else None
+        post = pair[lag].post[:upto]                      # the comparison stops at `upto`: what matters is the queue at that point
+        fl = post[-1].get(s) if post else None
         queued = fl[4] if fl else 0
         return long_[:len(short)] == short and len(long_) - len(short) <= queued
 
